@@ -160,7 +160,7 @@ def gen_case(rng, rule=None):
         cfg.update(m=m, tiebreak=rng.choice([None, None, "random"]))
         return {"rule": rule, "cfg": cfg, "spec": spec, "rs": rng.randint(0, 10 ** 9)}
     nmin = 2 if rule == "TopTwo" else 1
-    ties = rule in TIES_OK and rng.random() < 0.4
+    ties = (rule in TIES_OK and rng.random() < 0.4) or (rule == "PluralityVeto" and rng.random() < 0.5)
     weights = "int" if (rule == "PluralityVeto") else "mixed"
     spec = gen.gen_ranked_spec(rng, nmin=nmin, nmax=6, ties=ties, partial=True, weights=weights,
                                bmin=0 if eng < 0.04 else 1)
@@ -189,7 +189,7 @@ def gen_case(rng, rule=None):
     elif rule == "TopTwo":
         cfg.update(tiebreak=tb)
     elif rule == "PluralityVeto":
-        cfg.update(m=m, tiebreak=rng.choice([None, "random"]))
+        cfg.update(m=m, tiebreak=rng.choice([None, "random", "random", "borda", "borda"]) if ties else rng.choice([None, "random"]))
     else:
         cfg.update(m=m)
     return {"rule": rule, "cfg": cfg, "spec": spec, "rs": rng.randint(0, 10 ** 9)}
@@ -381,13 +381,17 @@ def run_case(vk, case):
             monitors.append({"name": "illegitimate-ValueError", "detail": res.get("msg", ""), "failure": failure})
         elif legit:
             tags.append("legit-ValueError")
+    elif (rule == "PluralityVeto" and res["status"] == "exn" and res["exn"] == "AttributeError"
+          and cfg.get("tiebreak") is None and any(len(s0) > 1 for b in spec["b"] for s0 in b["r"])):
+        # documented rejection: ballots with tied positions need a tiebreak method (the profile is not accepted)
+        tags.append("rejected:ties-without-tiebreak")
     else:
         failure = classify_failure(rule, cfg, spec, res, names)
         monitors.append({"name": "escaped-exception" if res["status"] == "exn" else "non-termination",
                          "detail": res.get("msg", "no result within 4 s of CPU time"), "failure": failure})
     req = None
     expect = None
-    if rule != "PluralityVeto" and res["status"] != "timeout":
+    if res["status"] != "timeout" or rule == "PluralityVeto":
         if res["status"] == "exn" and random_tb_calls and rule in elect.STV_FAMILY:
             req = None   # the rounds of the random draws are not recorded on a failed run
         else:
